@@ -1,6 +1,7 @@
 """Signal identifier tables (C18; also used by C10/C16): extraction, bijection, oracle, order."""
 import json
 import os
+import ordsem
 from terms import FA, show, mk, is_const, const_val, T
 from paths import enum_paths
 from facts import callee_of
@@ -310,7 +311,7 @@ def rule_tables(prog, res, oracle_path):
     return out
 
 
-def rule_order(prog, res):
+def rule_order(prog, res, tables=None):
     """Y-ord: finite case analysis of <SigId as Ord>::cmp; Y-part: partial_cmp == Some(cmp)."""
     for g in GNSS:
         path = "<%s%s::SigId as core::cmp::Ord>::cmp" % (MM, g)
@@ -319,9 +320,35 @@ def rule_order(prog, res):
             res.missing("Y-ord", path)
             continue
         res.fn(f)
+        TOID = MM + g + "::to_id"
+        # engine 1 (Y-sem): the body evaluated once per consistent ordering of the parts of the two descriptors (ordsem.py)
+        sem = None
+        try:
+            ids = sorted(tables[g][1].values()) if tables and g in tables and tables[g][1] else None
+            # the positions to_id can return: from the table Y-tab has just read (else the whole u8 range)
+            sem = ordsem.check(prog, path, TOID, MM + g + "::SigId", (ids[0], ids[-1]) if ids else (0, 255))
+        except (ordsem.Undecided, ordsem.Panic) as e:
+            res.extra.setdefault("ysem_undecided", {})[g] = str(e)[:200]
+        if sem is not None:
+            probs, runs = sem
+            for label, key in (("both recognised", "both recognised: compare positions (l.cmp(r))"),
+                               ("unrecognised vs recognised", "unrecognised vs recognised: Greater"),
+                               ("recognised vs unrecognised", "recognised vs unrecognised: Less"),
+                               ("both unrecognised, bands differ", "both unrecognised, bands differ: follow the band comparison"),
+                               ("both unrecognised, same band", "both unrecognised, same band: compare attributes (self.1.cmp(other.1))")):
+                pr = probs.get(label)
+                res.ob("Y-ord", "%s | %s" % (g, key), pr == [], ("; ".join(pr[:3]) if pr else "every ordering of the parts evaluated [Y-sem, %d runs]" % runs), f.loc,
+                       sample="Y-sem")
+            res.ob("Y-ord", "%s | no other case" % g, True, "the %d evaluated orderings are all the consistent ones [Y-sem]" % runs, f.loc)
+        else:
+            _order_template(prog, res, g, f, path, TOID)
+        _order_rest(prog, res, g, path)
+
+
+def _order_template(prog, res, g, f, path, TOID):
+    if True:
         fa = FA(f, prog)
         fa.defs(0)
-        TOID = MM + g + "::to_id"
         cases = {}
         bad = []
 
@@ -413,12 +440,16 @@ def rule_order(prog, res):
         known = {(1, 1, None), (0, 1, None), (1, 0, None), (0, 0, 0), (0, 0, 1)} | set(lessv) | ({(0, 0, "ne")} if passthrough else set())
         extra = [k for k in cases if k not in known]
         res.ob("Y-ord", "%s | no other case" % g, not extra and not bad, "extra cases %s %s" % (extra, bad), f.loc)
+
+
+def _order_rest(prog, res, g, path):
+    if True:
         # Y-part
         pp = "<%s%s::SigId as core::cmp::PartialOrd>::partial_cmp" % (MM, g)
         h = prog.fn(pp)
         if h is None:
             res.missing("Y-part", pp)
-            continue
+            return
         res.fn(h)
         ha = FA(h, prog)
         ha.defs(0)
